@@ -1,5 +1,6 @@
 import Operon.Model.Proto
 import Operon.Model.Loops
+import Operon.Model.LoopsDecay
 import Operon.Gen.LoopTables
 /-! Line-protocol driver for the loop models (C18).  Adversaries are scripted: one character per call,
     the last character repeats.  The same scripts are realised as Python callables by `harness/vf/props/c18.py`. -/
@@ -108,15 +109,18 @@ structure HSt where
 def healAdvD : HealAdv HSt Nat Float where
   gen s _ ctx :=
     -- script item `r`: the generator sets `loop.max_retries = 0`, `R`: adds 2 to it (then both return garbage)
+    -- `q` / `Q`: the generator sets `loop.confidence_decay = 0.5` / `= 0.0` (read at the top of every later attempt)
     let item := pick s.gs s.g 'g'
     let mr' := if item = 'r' then 0 else if item = 'R' then s.mr + 2 else s.mr
-    ({ s with g := s.g + 1, mr := mr' }, genRaw item s.g ctx)
+    let decay' := if item = 'q' then 0.5 else if item = 'Q' then 0.0 else s.decay
+    ({ s with g := s.g + 1, mr := mr', decay := decay' }, genRaw item s.g ctx)
   fold s raw := ({ s with f := s.f + 1 }, foldOf (pick s.fs s.f 'A') s.f raw)
 
 def healObjD : HealObj HSt Nat Float where
   adv := healAdvD
   retriesOf s := s.mr
-  opsOf s := floatOps s.decay
+  ops := floatOps 0.0
+  curOf s := (floatOps s.decay).cur
 
 /-- new scripts for the callbacks (every call line brings its own) -/
 def hScripts (gs fs : List Char) (s : HSt) : HSt := { s with g := 0, f := 0, gs := gs, fs := fs }
